@@ -17,10 +17,10 @@ Import ListNotations.
 Open Scope Z_scope.
 
 (* ---- the one-line switch between the code as pinned and the proposed repair (notes/C18.fix-1.diff) ---- *)
-Definition fmt_ints : list Z -> list (list Z) := ints_to_strings_pinned.
-Definition fmt_int_lists : Z -> list (list Z) -> list (list Z) := int_lists_to_strings_pinned.
+Definition fmt_ints : list Z -> list (list Z) := ints_to_strings.
+Definition fmt_int_lists : Z -> list (list Z) -> list (list Z) := int_lists_to_strings.
 (* ---- the same for notes/C18.fix-2.diff (leading '+' on float texts) ---- *)
-Definition parse_floats : list (list Z) -> option (list (bool * Z * Z * Z)) := str_to_float_rows_pinned.
+Definition parse_floats : list (list Z) -> option (list (bool * Z * Z * Z)) := str_to_float_rows.
 (* ---- list column: /repo commit 8a5819c (= notes/C02.fix-2.diff, rows regrouped by non-empty items) is in;
         before it the code was parse_split_ints_pinned ---- *)
 Definition parse_lists : Z -> list (list Z) -> option (list (list Z)) := parse_split_ints.
